@@ -204,6 +204,21 @@ ssize_t __wrap_sendto(int fd, const void *buf, size_t len, int flags, const stru
 	return (ssize_t)len;
 }
 
+static void residue_fill(void *buf, size_t cap);
+// Hook compiled into /repo only with -DIODINE_VERIF (MANIFEST.hooks): a decode buffer now holds `used` bytes of this call's
+// result; the rest is poisoned - with the run's residue pattern (pair runs differ in it, so any dependence on stale decode-buffer
+// bytes shows as a behavioural difference, C12) or, in the memcheck flavour, marked undefined.
+extern "C" void iodine_verif_tail(void *buf, long used, long cap)
+{
+	if (!buf || cap <= 0) return;
+	if (used < 0) used = 0;
+	if (used >= cap) return;
+	if (S && S->residue_mode >= 0 && S->poison_tails) { residue_fill((char *)buf + used, (size_t)(cap - used)); S->count("hook.tail_poisoned"); }
+#ifdef IOSIM_VG
+	(void)VALGRIND_MAKE_MEM_UNDEFINED((char *)buf + used, (size_t)(cap - used));
+#endif
+}
+
 static void residue_fill(void *buf, size_t cap)
 {
 	switch (S->residue_mode) {
